@@ -273,3 +273,81 @@ func sortedKeys(m map[string]bool) []string {
 	sort.Strings(out)
 	return out
 }
+
+// declsFor emits only the datatypes (and zero arrays) mentioned in text, with their
+// dependencies, in an order that depends on nothing but the names: the query of an
+// obligation must not depend on which other functions were generated in the same run.
+func (r *sortReg) declsFor(text string) string {
+	need := map[string]bool{}
+	var names []string
+	for n := range r.dts {
+		names = append(names, n)
+	}
+	sort.Strings(names)
+	mentions := func(d *dtInfo) bool {
+		if strings.Contains(text, d.name) || strings.Contains(text, d.ctor) {
+			return true
+		}
+		for _, f := range d.fields {
+			if strings.Contains(text, f.name) {
+				return true
+			}
+		}
+		return false
+	}
+	var zs []string
+	for z := range r.zarrs {
+		if strings.Contains(text, z) {
+			zs = append(zs, z)
+		}
+	}
+	sort.Strings(zs)
+	var visit func(n string)
+	var order []*dtInfo
+	visit = func(n string) {
+		if need[n] {
+			return
+		}
+		d := r.dts[n]
+		if d == nil {
+			return
+		}
+		need[n] = true
+		for _, f := range d.fields {
+			for _, m := range names {
+				if strings.Contains(f.sort, m) {
+					visit(m)
+				}
+			}
+		}
+		order = append(order, d)
+	}
+	for _, z := range zs {
+		for _, m := range names {
+			if strings.Contains(r.zarrs[z], m) {
+				visit(m)
+			}
+		}
+	}
+	for _, n := range names {
+		if mentions(r.dts[n]) {
+			visit(n)
+		}
+	}
+	var sb strings.Builder
+	for _, d := range order {
+		if len(d.fields) == 0 {
+			fmt.Fprintf(&sb, "(declare-datatypes ((%s 0)) (((%s))))\n", d.name, d.ctor)
+			continue
+		}
+		fmt.Fprintf(&sb, "(declare-datatypes ((%s 0)) (((%s", d.name, d.ctor)
+		for _, f := range d.fields {
+			fmt.Fprintf(&sb, " (%s %s)", f.name, f.sort)
+		}
+		sb.WriteString("))))\n")
+	}
+	for _, z := range zs {
+		fmt.Fprintf(&sb, "(declare-fun %s () %s)\n", z, r.zarrs[z])
+	}
+	return sb.String()
+}
